@@ -168,13 +168,19 @@ def after_abuse_groups(rng, kinds, tier):
 class CalSpec(Spec):
     kinds = ("jd", "ym")
     ylimit = None
+    # tier "wide" (a source tie is not established on this run): the day and year sweeps over the property's WHOLE
+    # domain as in the thorough tier, everything else at the quick size
+    supports_wide = True
 
     def streams(self, tier, rng):
         sts = []
+        whole = tier in ("thorough", "wide")
+        if tier == "wide":
+            tier = "quick"
         if "jd" in self.kinds:
             reqs = []
             for cfg in CFGS:
-                if tier == "thorough":
+                if whole:
                     reqs += jd_blocks(cfg, LO, HI + 1)   # the domain is closed: +40 000 000 itself included
                 else:
                     seen = set()
@@ -241,7 +247,7 @@ class CalSpec(Spec):
                 ylo, yhi = year_range(cfg)
                 if self.ylimit:
                     ylo, yhi = max(ylo, self.ylimit[0]), min(yhi, self.ylimit[1] + 1)
-                if tier == "thorough":
+                if whole:
                     reqs += ym_blocks(cfg, ylo, yhi)
                 else:
                     seen = set(ym_blocks(cfg, max(ylo, -6144), min(yhi, 12288)))
